@@ -90,6 +90,26 @@ def _label_scan(lines_map, gen_lines, line):
 
 def run_unit(unit, repo_root, tier='quick', rlimit=None, extra_args=None, template=None,
              build_root=None):
+    """generate + verify; functions whose bodies Verus rejects (unsupported construct, type error
+    against the shims) are abstracted one round at a time so that the rest of the unit is still
+    checked -- such functions are reported as undecided by lane V, never as violations"""
+    abstract = set()
+    res = None
+    for _round in range(4):
+        res = _run_unit_once(unit, repo_root, tier, rlimit, extra_args, template, build_root, frozenset(abstract))
+        new = set(res.get('reject_items') or []) - abstract
+        if res['status'] != 'undecided' or not new:
+            break
+        abstract |= new
+    res['abstracted'] = sorted(abstract)
+    if abstract and res['status'] == 'ok':
+        res['status'] = 'partial'
+        res['reason'] = 'bodies outside the verifiable subset (assumed, not checked): %s -- %s' % (
+            ', '.join(sorted(abstract)), '; '.join(res.get('reject_msgs', [])[:2]))
+    return res
+
+
+def _run_unit_once(unit, repo_root, tier, rlimit, extra_args, template, build_root, abstract):
     template = template or os.path.join(VERIF, 'units', unit + '.rs')
     bdir = os.path.join(build_root or os.path.join(VERIF, 'build'), unit)
     os.makedirs(bdir, exist_ok=True)
@@ -100,7 +120,7 @@ def run_unit(unit, repo_root, tier='quick', rlimit=None, extra_args=None, templa
            'meta': unit_meta(template), 'log': None, 'labels': [], 'scan': {}}
     t0 = time.time()
     try:
-        log = gen_unit.generate(template, repo_root, out_rs, out_map)
+        log = gen_unit.generate(template, repo_root, out_rs, out_map, abstract)
     except gen_unit.GenError as e:
         res['reason'] = 'extraction: %s' % e
         res['wall_s'] = time.time() - t0
@@ -149,6 +169,9 @@ def run_unit(unit, repo_root, tier='quick', rlimit=None, extra_args=None, templa
         raw_noise.append(l)
     undecided = []
     failures = []
+    reject_items = set()
+    reject_msgs = []
+    lost_by_item = {it['item']: it.get('lost_anchors') or [] for it in log.get('items', []) if it.get('kind') == 'fn'}
     for d in diags:
         if d.get('level') != 'error':
             continue
@@ -159,7 +182,19 @@ def run_unit(unit, repo_root, tier='quick', rlimit=None, extra_args=None, templa
         spans = d.get('spans', [])
         prim = [s for s in spans if s.get('is_primary')] or spans
         if kind is None or not prim:
-            undecided.append(msg)
+            # not a proof obligation: unsupported construct / type error ...  If it sits inside an
+            # extracted function, that function can be abstracted and the unit re-run.
+            item = None
+            for sp in (prim or spans):
+                o = _origin_for(lines_map, sp['line_start']) or {}
+                if o.get('src') in ('repo', 'rewrite') and o.get('item') in lost_by_item:
+                    item = o['item']
+                    break
+            if item and item not in abstract:
+                reject_items.add(item)
+                reject_msgs.append('%s: %s' % (item, msg[:160]))
+            else:
+                undecided.append(msg)
             continue
         ps = prim[0]
         # the span that names the *clause* (postcondition / precondition text) if there is one
@@ -198,6 +233,7 @@ def run_unit(unit, repo_root, tier='quick', rlimit=None, extra_args=None, templa
             'safety': kind in SAFETY_KINDS or (kind == 'pre' and org.get('src') not in ('insert',)
                                                and _is_safety_pre(gen_lines, named['line_start'])),
             'rendered': d.get('rendered', '')[:3000],
+            'degraded': bool(lost_by_item.get(item)), 'lost_anchors': lost_by_item.get(item) or [],
         })
     if summary:
         vr = summary.get('verification-results', {})
@@ -215,6 +251,13 @@ def run_unit(unit, repo_root, tier='quick', rlimit=None, extra_args=None, templa
             pass
         res['verus_version'] = summary.get('verus', {}).get('version')
     res['failures'] = failures
+    res['reject_items'] = sorted(reject_items)
+    res['reject_msgs'] = reject_msgs
+    res['degraded_items'] = {k: v for k, v in lost_by_item.items() if v}
+    if reject_items and not undecided:
+        res['status'] = 'undecided'
+        res['reason'] = 'verus rejected the body of: ' + '; '.join(reject_msgs[:3])
+        return res
     if undecided or summary is None or (summary and summary['verification-results'].get('encountered-vir-error')):
         res['status'] = 'undecided'
         res['reason'] = 'verus: ' + '; '.join(undecided[:3] or raw_noise[-3:] or ['no summary'])
